@@ -188,7 +188,7 @@ func (w *vfWorld) logInvariant(duid string) bool {
 	for s := uint64(1); s <= d.Sseq.End; s++ {
 		cnt := 0
 		for _, o := range w.store.Operations {
-			if o.DUID == duid && o.Sseq == s {
+			if o.DUID == duid && uint64(o.Sseq) == s {
 				cnt++
 			}
 		}
